@@ -145,6 +145,7 @@ static int do_replay(const char* file, bool verbose) {
   if (!plan_from_text(f, p)) { std::fprintf(stderr, "malformed replay file %s\n", file); return 2; }
 #ifdef SIM_MODE_T
   if (p.cfg.mode == 1) {
+    globals().verbose = verbose;
     g_inflight = p.seed;
     std::printf("B %llu\n", static_cast<unsigned long long>(p.seed)); std::fflush(stdout);
     int rc = one_run_t(p, ".", true, file);
